@@ -257,6 +257,7 @@ func RunScenario(t *testing.T, rec *Recorder, sc *Scenario) {
 	for k, v := range sc.Tag {
 		begin[k] = normJSON(v)
 	}
+	curScenario.Store(sc.ID)
 	rec.Emit("scen.begin", begin)
 	r := NewRunner(rec)
 	prevSeed, prevFile := "", ""
@@ -362,7 +363,9 @@ func RunScenario(t *testing.T, rec *Recorder, sc *Scenario) {
 			bg := r.genv.Build(run.ExampleGen)
 			for k := 0; k < run.ExampleN; k++ {
 				rec.Emit("example.begin", F{"run": i + 1, "k": k})
+				InvStart()
 				func() {
+					defer InvStop()
 					defer func() {
 						p := recover()
 						rec.Emit("example.end", F{"run": i + 1, "k": k, "panicked": p != nil})
